@@ -5,13 +5,17 @@ from .registry import claim  # noqa: F401
 T1 = "contract-based deductive verification: VCs generated from the AST of the real /repo functions against sidecar contracts, discharged by z3"
 T2 = "run-time contracts on the real functions over an exhaustive small scope (bounded stand-in, never counted as proved)"
 
-claim("C01", "proof", T1 + "; " + T2,
+claim("C01", "proof", T1 + " (bit masks as sets of naturals; heap theory B with object allocation for the traversal loop; Lean 4 + Mathlib for the structural induction); " + T2,
       "Proved for all integers of every width (T1): bitmask normalisation, lowest set bit, triviality / compatibility / nesting predicates, "
       "compile_{tree_leafset,leafset,split}_bitmask (split = leafset when rooted, = leafset normalised on the lowest tree bit when unrooted) with frames. "
-      "Bounded (T2): whole-tree exactness of encode_bipartitions, the iff with topology, reconstruction from any ordering.",
-      "bit masks modelled exactly as sets of naturals (Array Int Bool); sidecar types are preconditions; the splits-equivalence theorem is not re-proved; "
-      "encode loop / reconstruction are bounded only",
-      "DESIGN.md section 5 C01")
+      "Proved for all heaps (T1): at the exit of the traversal loop of Tree.encode_bipartitions every visited edge has a Bipartition object of its own whose leaf-set mask "
+      "satisfies the local clade equation (leaf: its taxon's bit; internal: the union of its children's masks). Lean: those equations have exactly one solution -- "
+      "mask = taxon bits of the leaves below -- so equal trees get equal encodings, and masking with the root's mask changes nothing. "
+      "Bounded (T2): whole-tree exactness end to end, the iff with topology, reconstruction from any ordering.",
+      "ASSUMED for the loop: postorder_edge_iter yields every edge once, children before parents (C15), tree well-formedness (C03), leaf taxa are namespace members (C11), "
+      "suppress_unifurcations / collapse_basal_bifurcation re-establish that; the per-edge compile phase after the loop is joined to it only by the bounded driver; "
+      "the splits-equivalence theorem is not re-proved",
+      "DESIGN.md section 5 C01, section 9")
 claim("C02", "proof", T1 + " (character-class theory + exhaustive code-point enumeration); " + T2,
       "Proved (T1): for every code point, each tree writer's protect class covers every character NexusTokenizer treats specially (both regexes and the "
       "tokenizer sets extracted from the AST each run; cross-checked on all 1,114,112 code points); the writer's rooting token and the reader's "
